@@ -8,6 +8,7 @@ INVARIANT NoEarlyWrite
 INVARIANT AttachLast
 INVARIANT FactoryLaw
 INVARIANT Outcome
+INVARIANT SpecCarriesNothing
 INVARIANT NeverReplaced
 INVARIANT ReadBack
 CHECK_DEADLOCK FALSE
@@ -19,4 +20,5 @@ CONSTANTS
   SideOpts = {"absent", "shared"}
   Alpha = "small"
   Alpha3 = "p"
+  Reuse = FALSE
   Profiles = {"plain", "miss", "missflag"}
